@@ -22,6 +22,9 @@ def scripts(dev, maxenv):
     s = {}
     for x in res.printed():
         d = json.loads(x)
+        evs = [e["ev"] for e in d["script"]]
+        if "setupstart" in evs and "setupdone" not in evs:
+            continue     # the harness always lets the setup finish
         key = json.dumps(d["script"])
         s.setdefault(key, [])
         if d["final"] not in s[key]:
@@ -91,7 +94,7 @@ def run(pid, tier, seed):
             elif not x["conforms"]:
                 n_mismatch += 1
             for prob in x[key]:
-                if x["desync"] and prob not in ("third-peer-response-reached-response-hook", "message-sent-to-third-peer", "diagnostics-not-empty"):
+                if x["desync"] and prob not in ("third-peer-response-reached-response-hook", "message-sent-to-third-peer", "diagnostics-not-empty", "request-manager-loop-blocked"):
                     continue    # the real run left the script: only script-independent observations count
                 v.violation(prob, "script %s: real observables %s; design model allows %s" % (
                     json.dumps(rec["case"]["script"]), json.dumps(rec["obs"])[:500], json.dumps(rec["case"]["finals"])[:300]), rec)
